@@ -395,16 +395,18 @@ class Differ:
 
         idx = 0
         diff_deeply = kwargs.pop("diff_deeply", True)
-        for (lele, rele) in zip_longest(lhs, rhs):
+        # A real null element must not be mistaken for "no such element"
+        missing = object()
+        for (lele, rele) in zip_longest(lhs, rhs, fillvalue=missing):
             next_path = path + "[{}]".format(idx)
             idx += 1
-            if lele is None:
+            if lele is missing:
                 self._diffs.append(
                     DiffEntry(
                         DiffActions.ADD, next_path, None, rele,
                         lhs_parent=lhs, lhs_iteration=idx,
                         rhs_parent=rhs, rhs_iteration=idx))
-            elif rele is None:
+            elif rele is missing:
                 self._diffs.append(
                     DiffEntry(
                         DiffActions.DELETE, next_path, lele, None,
